@@ -33,6 +33,12 @@
   property is about: the request that issued a failed KILL answers an error, the task is back in
   the roster, the environment is gone all the same.
 
+  `(upd K J STATE OMIT SRC)` — the simulated master sent ONE status update about the task of role J of environment K
+  (TASK_RUNNING or a state updateTaskStatus has no case for; lacking the optional fields executor_id / agent_id or not;
+  labelled as a reconciliation answer or as an ordinary update) — is the step `Own.Step.statusUpdate` for the latest launch
+  of that role that has not ended (nothing if there is none, or if the roster does not hold it). It names no environment for
+  the frame clause of Spec.C04: the environment the task belongs to has to be exactly as before.
+
   The model replayed is the code as it is (`Own.codeCfg`, the default of `Own.init`):
   it cannot crash at a complete claim, its teardown names the hook tasks of all
   weights, and the oracle of the rendezvous race (`late`, still passed when a call was
@@ -72,6 +78,7 @@ inductive OpIn where
   | xfail (k j : Nat) (upd : Bool) | afail (k j : Nat) (upd : Bool)
   | newd (k : Nat) (f a kp : Bool)
   | idle (ms : Nat)                 -- the harness let time pass: nothing happens in the model
+  | upd (k j : Nat) (u : StatusUpd) -- a status update about the task of role j of environment k, optional fields present or not
   deriving Repr, Inhabited
 
 structure Scenario where
@@ -110,6 +117,15 @@ def parseOp : SExp → Option OpIn
   | .list [.atom "afail", k, j, u] => do pure (.afail (← k.nat?) (← j.nat?) (← u.bool?))
   | .list [.atom "newd", k, f, a, kp] => do pure (.newd (← k.nat?) (← f.bool?) (← a.bool?) (← kp.bool?))
   | .list [.atom "idle", n] => do pure (.idle (← n.nat?))
+  -- (upd K J STATE OMIT SRC): STATE RUNNING | STARTING (a state updateTaskStatus has no case for); OMIT = which of the
+  -- optional fields agent_id / executor_id the update lacks; SRC recon | plain (how the simulated master labels it: both
+  -- reach updateTaskStatus for a roster task)
+  | .list [.atom "upd", k, j, .atom st, .atom om, .atom _src] => do
+    let running ← (match st with | "RUNNING" => some true | "STARTING" => some false | _ => none)
+    let (a, e) ← (match om with
+      | "none" => some (true, true) | "exec" => some (true, false) | "agent" => some (false, true) | "both" => some (false, false)
+      | _ => none)
+    pure (.upd (← k.nat?) (← j.nat?) { running := running, agent := a, executor := e })
   | _ => none
 
 def parseScenario (s : String) : Option Scenario :=
@@ -443,6 +459,10 @@ def threadOf (sc : Scenario) (ops : List OpIn) (ro : RoundObs) (idx : Nat) (op :
   | .afail k j _ => if createdHere ops k then { idx := idx, steps := [sub (fun s => (s, .ok))] } else lossThread true k j
   | .newd _ _ _ _ => { idx := idx, steps := [] }     -- two threads: see `threadsOf`
   | .idle _ => { idx := idx, steps := [sub (fun s => (s, .ok))] }
+  -- the update names the latest launch for role j of k that has not ended (nothing happens if there is none)
+  | .upd k j u => { idx := idx, steps := [sub (fun s => match victim s k j with
+      | none => (s, .ok)
+      | some m => ((step s (.statusUpdate m.id u)).1, .ok))] }
 where
   /-- The executor / agent of the host the victim runs on is lost (nothing happens if there is no
       victim); then the watchers that were seen to react do (which ones are still alive is the
@@ -678,6 +698,8 @@ def envsOfOps (ops : List OpIn) : List Nat :=
   ops.filterMap (fun
     | .new k => some k | .ctl k _ => some k | .destroy k _ _ _ => some k
     | .killenv k => some k | .rel k => some k | .cleanup => none | .idle _ => none
+    -- a status update is not a request on the environment: its frame includes the environment the task belongs to
+    | .upd _ _ _ => none
     | .xfail k _ _ => some k | .afail k _ _ => some k | .newd k _ _ _ => some k)
 
 /-- Environments a call on which was seen to hang in this round. -/
